@@ -20,4 +20,26 @@ var metas = map[string]*checkMeta{
 		Faults:      []string{"short_reads", "one_byte_reads", "forced_split_inside_marker"},
 		Probes:      []string{"docs_with_comments", "docs_with_escaped_quote", "docs_over_64KiB", "forced_split_inside_marker", "passthrough_checked"},
 	},
+	"C09": {
+		ID: "C09", Level: "exploration",
+		Phases: []phase{{Name: "disk", Pkg: "checks/c09",
+			Quick: tierCfg{Count: 4000, Budget: 60 * time.Second},
+			Thor:  tierCfg{Count: 300000, Budget: 15 * time.Minute}}},
+		Rule: "plan = header flags x tag sequence (type any byte, 32-bit timestamps around 2^24 and 2^32-1, sizes 0/1/255/256/65535/65536/2^24-1(rationed)/random) x writer (library muxer or reference writer) x read segmentation of the sim disk. Non-trivial = at least one tag and (a short read occurred or the library muxer wrote the file). Distinct = distinct plan bodies.",
+		Components: map[string]string{"flv.Muxer/flv.Demuxer": "real", "file": "sim disk (simnet.Pipe, recorded writes)", "layout oracle": "reference FLV v1 parser + writer (ref/flv.go, stub written from the spec)"},
+		Assumptions: stdAssume,
+		Faults:      []string{"short_reads", "one_byte_reads"},
+		Probes:      []string{"tags_ts_over_24bit", "tags_size_over_64KiB", "tags_empty", "tags_max_size", "files_written_by_muxer", "files_written_by_reference"},
+	},
+	"C01": {
+		ID: "C01", Level: "exploration",
+		Phases: []phase{{Name: "session", Pkg: "checks/c01",
+			Quick: tierCfg{Count: 1500, Budget: 90 * time.Second},
+			Thor:  tierCfg{Count: 150000, Budget: 20 * time.Minute}}},
+		Rule: "plan = per-endpoint op sequence (WriteMessage of generated messages: type, stream id, timestamp class around 0/0xFFFFFF/2^31-1, length class around k*chunk size/65535/65536/2^24-1(rationed); WritePacket(SetChunkSize n) by either side at any position) x per-direction read/write segmentation (down to 1 byte) x schedule tape over 4 tasks (writer+reader per endpoint) after the real simple handshake. Non-trivial = at least one op and more than 4 task switches. Distinct = distinct plan bodies.",
+		Components: map[string]string{"rtmp.Protocol A and B, rtmp.Handshake": "real", "transport": "sim duplex (simnet)", "wire oracle": "reference RTMP 1.0 chunk parser (ref/rtmp.go, stub written from the spec)", "scheduler": "tape-driven, channel gates"},
+		Assumptions: append([]string{"stream ids are recovered by re-serialising the received message header through a recording Protocol (the field is unexported)", "Set Chunk Size is announced through WritePacket(SetChunkSize) (the library's API for it), never as a raw type-1 WriteMessage"}, stdAssume...),
+		Faults:      []string{"short_reads", "one_byte_reads", "split_writes", "blocked_reads"},
+		Probes:      []string{"set_chunk_size_announced", "messages_extended_timestamp", "messages_multi_chunk", "messages_max_length", "task_switches"},
+	},
 }
